@@ -47,6 +47,15 @@ Five parts (each counted separately in the evidence):
     detectors keep their names, new processors differing in noise / filter / post-selection / input, and ONE
     processor re-configured through its setters between two requests (reference: a fresh strong-simulation
     processor of the new configuration).
+ B3. CORRESPONDENCE of the conversions that draw samples (`BSDistribution.sample`, `probs_to_samples`,
+    `sample_count_to_samples`, `samples_to_probs`; `Model/C09Conv.lean`) with the picks of `random.choices` scripted,
+    plus the round trip counts -> probabilities -> counts with `np.random.normal` switched off on the real code.
+ F. EXACT REPLAY (`Model/C09Run.lean`): the real draws of one `Processor.samples` / `NoisySamplingSimulator.samples`
+    request are recorded at the three random sites (input generator, sampling backend, `simulate_detectors_sample`) by
+    wrapping module / class attributes, fed to the Lean model of the whole call, and compared exactly (sample
+    sequence, detected state of every shot, size of every generator and backend request, exceptions, performances);
+    the model's lazy provider answers the same request on the re-ordered streams; a direct oracle independent of the
+    model evaluates the property on the recorded run.
  A also holds a DIRECT ORACLE on the two performances: when nothing but the limits can stop the scripted loop, the
     reported physical / logical performances must be the observed frequencies (shots with at least `filter` photons
     outside the heralded modes among the shots taken, times the source's pre-performance; selected among those).
@@ -3421,12 +3430,25 @@ def judge_replay(chk, case, count=True):
             return None
         return ("broken", "replay:recording", f"{len(rec['calls'])} calls of NoisySamplingSimulator.samples recorded "
                                              f"({obs})", replay)
+    if obs.get("raise") == "DidNotReturn":
+        return ("violation", "replay:does-not-return", f"{case['via']} request ms={case['ms']} sh={case['sh']} did "
+                                                       f"not return within {CALL_TIMEOUT} s", replay)
     call = rec["calls"][0]
     req = replay_request(call, rec)
     if req is None:
         return None
     tie = replay_float_tie(call, rec)
     rep = chk.lean.ask(req)
+    if rep.get("path") == "fast":
+        # OBSERVED, not judged: the perfect fast path hands out its samples without looking at the photon filter; with
+        # a filter above the photon number of the input strong simulation reports nothing (physical performance 0).
+        # The configuration is left out of the comparison so that the check says the same before and after a repair
+        # (candidate: fixes/C09-fast-path-photon-filter.diff).
+        only = call["svd"][1] if isinstance(call["svd"], tuple) else next(iter(call["svd"]))[0]
+        if only.n < call["filter"]:
+            if count:
+                chk.branch("replay-observed:fast-path-input-below-photon-filter")
+            return None
     diff = compare_replay(call, rec, obs, rep)
     obs["path_fast"] = rep.get("path") in ("fast", "incompatible", "none")
     direct = oracle_replay(call, rec, obs)
@@ -3502,10 +3524,7 @@ def gen_replay_case(rng, i):
         via = "nss"
     case = {"spec": spec, "via": via, "seed": rng.randrange(2 ** 31), "keep": False, "svd": None}
     m = spec["m"]
-    selective = bool(spec["heralds"] or spec["ps"] or (spec["filter"] or 0) >= 2 or spec["detectors"])
     case["ms"] = rng.choice([0, 1, 2, 3, 5, 8, 13, 30, 30, 60, 60, 150, 150, 400])
-    case["sh"] = rng.choice([0, 1, 2, 5, 17, 40, 100, 100, 300, 300, 1000, 1000, 3000]) \
-        if selective or rng.random() < 0.6 else None
     if via == "processor-svd":
         if spec["noise"] and rng.random() < 0.6:
             case["svd"] = "source"
@@ -3541,6 +3560,11 @@ def gen_replay_case(rng, i):
             spec["filter"] = rng.choice([0, 1, 2])
         if rng.random() < 0.08:
             case["ms"] = None
+    # no shot limit only where (nearly) every shot is accepted: the loop of a request nothing satisfies never ends
+    selective = bool(spec["heralds"] or spec["ps"] or (spec["filter"] or 0) >= 2 or spec["detectors"]
+                     or via == "processor-svd")
+    case["sh"] = rng.choice([0, 1, 2, 5, 17, 40, 100, 100, 300, 300, 1000, 1000, 3000]) \
+        if selective or rng.random() < 0.6 else None
     return case
 
 
@@ -3593,8 +3617,9 @@ def handle_replay(chk, case, label="random"):
         if label == "random":
             small = shrink_replay(chk, case, sig)
             res2 = judge_replay(chk, small, count=False)
-            if res2 is not None and res2[1] == sig:
-                kind, sig, what, replay = res2
+            if res2 is not None and res2[1] == sig and res2[0] == kind:
+                replay = dict(res2[3], original=case, what_original=what)
+                what = res2[2]
         chk.fail(kind, sig, what, replay)
 
 
